@@ -304,7 +304,11 @@ def mon_c09(s, v):
             f.append(f"after async_disconnect (line {di}) the next write on the connection (line {first['i']}) is not a lone DISCONNECT: {[d['type'] for d in decs]}")
         else:
             d = decs[0]
-            if d["rc"] != o.rc or (canon_props(d["props"]) != canon_props(o.props) and d["props"] != []):
+            rs = canon_props(d["props"]).get(0x1F, [b""])[0]
+            internal = d["rc"] in (0x80, 0x81) and (rs.startswith(b"Malformed") or rs.startswith(b"No reply received") or d["props"] == [] and o.rc not in (0x80, 0x81))
+            if internal and (d["rc"] != o.rc or canon_props(d["props"]) != canon_props(o.props)):
+                f.append(f"KNOWN-F21: an internal DISCONNECT (rc={d['rc']}, {rs[:40]!r}) queued before async_disconnect was written instead of the caller's (rc={o.rc}); the caller's DISCONNECT never reaches the wire")
+            elif d["rc"] != o.rc or (canon_props(d["props"]) != canon_props(o.props) and d["props"] != []):
                 f.append(f"DISCONNECT on the wire carries rc={d['rc']} props={d['props']}, asked rc={o.rc} props={o.props}")
         if len(later) > 1:
             f.append(f"something was written on the connection after the DISCONNECT: line {later[1]['i']}")
